@@ -3,6 +3,7 @@ package main
 // Discharging obligations: one SMT-LIB query per (obligation, path), raced on the installed solvers.
 
 import (
+	"sync/atomic"
 	"bytes"
 	"context"
 	"crypto/sha256"
@@ -79,9 +80,26 @@ func runSolver(ctx context.Context, s Solver, file string, timeoutS int) (string
 
 // Solve races the solvers on one query. all=true waits for every solver (cross-check).
 func Solve(dir, name, header string, assume []string, goal string, timeoutS int, all bool) QueryResult {
+	qr := solveOnce(dir, name, header, assume, goal, timeoutS, all)
+	if qr.Result == "unknown" && len(qr.PerSolver) > 0 {
+		allErr := true
+		for _, r := range qr.PerSolver {
+			allErr = allErr && r == "error"
+		}
+		if allErr {
+			// every solver process failed (not a timeout, not an answer): environmental (fork / memory pressure); once more
+			time.Sleep(500 * time.Millisecond)
+			qr = solveOnce(dir, name, header, assume, goal, timeoutS, all)
+		}
+	}
+	return qr
+}
+
+func solveOnce(dir, name, header string, assume []string, goal string, timeoutS int, all bool) QueryResult {
 	text := queryText(header, assume, goal, false)
 	h := sha256.Sum256([]byte(text))
-	file := filepath.Join(dir, fmt.Sprintf("%s_%x.smt2", sanitize(trunc(name, 80)), h[:6]))
+	// two paths can produce the same query text: the files must still be distinct, one query removes its file when done
+	file := filepath.Join(dir, fmt.Sprintf("%s_%x_%d.smt2", sanitize(trunc(name, 80)), h[:6], atomic.AddInt64(&querySeq, 1)))
 	if err := os.WriteFile(file, []byte(text), 0o644); err != nil {
 		return QueryResult{Result: "error", Model: err.Error()}
 	}
@@ -137,6 +155,8 @@ func Solve(dir, name, header string, assume []string, goal string, timeoutS int,
 }
 
 var keepSMT = false
+
+var querySeq int64
 
 // SolveAll discharges all obligations of the reports in parallel.
 func SolveAll(dir string, reps []*FuncReport, timeoutS int, all bool) {
